@@ -1,4 +1,4 @@
 From Coq Require Import Extraction ExtrOcamlBasic.
-From Nomt Require Import Base Hash Trie Store Emit.
+From Nomt Require Import Base Hash Trie Store Emit Result PathProof BuildTrie VerifyUpdate Witness MultiProof MultiUpdate CoreGlue Image.
 Extraction Language OCaml.
-Separate Extraction Base Hash Trie Store Emit.
+Separate Extraction Base Hash Trie Store Emit Result PathProof BuildTrie VerifyUpdate Witness MultiProof MultiUpdate CoreGlue Image.
